@@ -4,6 +4,7 @@ package main
 
 import (
 	"fmt"
+	sdk "github.com/cosmos/cosmos-sdk/types"
 	"math/big"
 
 	"cosmossdk.io/math"
@@ -19,7 +20,7 @@ func init() {
 		Level: "model_checking",
 		Rule: "product: configuration (4 pause-flag states x attester set {as attested, rotated away, rotated back}, reached by real transactions after the originals were emitted) x original " +
 			"{own user message, someone else's, foreign-domain with sender=submitter, bad attestation, genuine own deposit, someone else's deposit, user-sent burn-message imitation naming the submitter, a replacement of a replacement (message and deposit)} " +
-			"x {replace-message, replace-deposit} x new body / mint recipient / caller in {zero32, nonzero32, empty, 31, 33, 64, 96 bytes, oversized body} x 2 submitters; success only under the stated conditions, " +
+			"x {replace-message, replace-deposit} x new body / mint recipient / caller in {zero32, nonzero32, empty, 31, 33, 64, 96 bytes, oversized body} x 4 submitters (the sender, another user, and two shorter accounts whose address is a prefix of the sender's; the latter with a reduced shape set); success only under the stated conditions, " +
 			"replacement reference-decoded and compared with the original field by field, raw store/ledger/counter diff must be empty; distinct_nontrivial = distinct (original kind, transaction, condition vector, outcome)",
 		Assumptions: []string{"success ONLY-IF the stated conditions; the canonical well-formed case must succeed so the check is not vacuous; other accepted-by-conditions shapes (e.g. empty new caller) are EITHER"},
 		Jobs:        c09Jobs,
@@ -185,8 +186,21 @@ func c09Run(r *Run, burnPaused, sendPaused bool, attCfg string) {
 		}
 	}
 
+	// submitters: the original sender, somebody else, and two different accounts whose (shorter)
+	// addresses are a prefix of the original sender's -- they are not the sender
+	subs := []Account{UserA, UserB}
+	if UserA.Addr[19] != 0 && UserA.Addr[8] != 0 {
+		for _, n := range []int{8, 19} {
+			a := sdk.AccAddress(append([]byte{}, UserA.Addr[:n]...))
+			subs = append(subs, Account{Name: fmt.Sprintf("A4[:%d]", n), Addr: a, Str: a.String()})
+		}
+	}
 	for _, og := range origs {
-		for _, sub := range []Account{UserA, UserB} {
+		for si, sub := range subs {
+			shapes, newBodies := shapes, newBodies
+			if si >= 2 {
+				shapes, newBodies = shapes[:2], newBodies[:2]
+			}
 			// a "replacement" that repeats the original's own body and caller
 			if dm, err := refcodec.DecodeMessage(og.msg); err == nil {
 				a := MkReplaceMessage(sub.Str, og.msg, og.att, dm.Body, dm.DestinationCaller, og.name)
